@@ -15,10 +15,34 @@ DRAW_BUDGET = 3_000_000
 # ==========================================================================
 # C15
 # ==========================================================================
-def generate_traced(params):
+def generate_traced(params, history=None, reuse=False):
     """generate_scenario under the line/draw budget.
-    -> (scenario | None, info dict)."""
+    -> (scenario | None, info dict).
+
+    history: earlier generator calls of the same process (completed,
+    rejected by the generator, or interrupted half way by a virtual-time
+    budget); with reuse they - and the judged call - go through ONE
+    ScenarioGenerator instance."""
     import nasim
+    gen_fn = nasim.generate_scenario
+    if reuse:
+        from nasim.scenarios import ScenarioGenerator
+        gen_fn = ScenarioGenerator().generate
+    st0 = np.random.get_state()
+    for h in history or ():
+        hp = dict(h["params"])
+        if hp.get("address_space_bounds") is not None:
+            hp["address_space_bounds"] = tuple(hp["address_space_bounds"])
+        try:
+            with seams.LineBudget(
+                    "nasim/scenarios/generator.py",
+                    int(h["lines"]) if h["kind"] == "interrupted"
+                    else LINE_BUDGET):
+                gen_fn(**hp)
+        except BaseException as e:
+            if not isinstance(e, (Exception, seams.BudgetExceeded)):
+                raise
+    np.random.set_state(st0)
     p = dict(params)
     if p.get("address_space_bounds") is not None and \
             p.get("seed", 0) % 2 == 0:
@@ -36,7 +60,7 @@ def generate_traced(params):
             lb = seams.LineBudget("nasim/scenarios/generator.py", LINE_BUDGET)
             try:
                 with lb:
-                    scen = nasim.generate_scenario(**p)
+                    scen = gen_fn(**p)
             except seams.BudgetExceeded as e:
                 info["budget"] = str(e)
                 info["where"] = lb.where
@@ -246,15 +270,35 @@ def c15_run_one(prop, tier, root, idx, extra):
         # several hundred hosts: the DMZ / sensitive subnets outgrow the
         # user subnets (more than 5 hosts) from 201 hosts on
         params["num_hosts"] = rng.choice([200, 201, 202, 205, 240, 250])
-    return c15_execute({"params": params, "seed": seed}, tier,
-                       {"idx": idx, "seed": seed})
+    trace = {"params": params, "seed": seed}
+    fx = core.stream(seed, "faults2")
+    if fx.random() < 0.3:
+        hist = []
+        for _ in range(fx.choice([1, 1, 2])):
+            hp = configs.gen_params(fx, max_hosts=40, small_bias=True)
+            kind = fx.choice(["ok", "ok", "rejected", "rejected",
+                              "interrupted"])
+            h = {"kind": kind, "params": hp}
+            if kind == "rejected":
+                h["how"] = configs.reject_params(hp, fx)
+            elif kind == "interrupted":
+                h["lines"] = fx.choice([30, 80, 200, 500, 1500, 4000])
+            hist.append(h)
+        trace["history"] = hist
+        trace["reuse"] = fx.random() < 0.7
+    return c15_execute(trace, tier, {"idx": idx, "seed": seed})
 
 
 def c15_execute(trace, tier, res):
     counters = core.Counters()
     params = trace["params"]
     res["trace"] = trace
-    scen, info = generate_traced(params)
+    scen, info = generate_traced(params, trace.get("history"),
+                                 trace.get("reuse", False))
+    for h in trace.get("history") or ():
+        counters.hit("fault.earlier_generation." + h["kind"])
+    if trace.get("reuse"):
+        counters.hit("fault.generator_instance_reused")
     counters.hit("sim.lines", info["lines"])
     counters.hit("sim.draws", info["draws"])
     counters.hit("fault.budget_armed")
@@ -444,6 +488,9 @@ def c16_execute(trace, tier, res):
         if len(plan) <= 60:
             plan = prune_plan(cfg, plan)
         counters.hit("sim.plan_steps", len(plan))
+        lookahead = core.h64(f"{seed}|lookahead") % 3 == 0
+        if lookahead:
+            counters.hit("fault.background_gstep.planner_replay")
         done = False
         n = 0
         for a in plan:
@@ -459,12 +506,20 @@ def c16_execute(trace, tier, res):
                                                 a.name],
                             "u": [float((a.prob + 1) / 2).hex()]})
                 counters.hit("fault.chance_fail")
+            if lookahead:
+                # a planning agent tries the action on the current state
+                # with the generative step before it takes it for real
+                ops.append({"op": "gstep", "src": "cur",
+                            "a": [a.kind, list(a.target), a.name],
+                            "u": [float(0.0).hex()]})
             ops.append({"op": "step", "a": [a.kind, list(a.target), a.name],
                         "u": [float(0.0).hex()]})
             for op in ops:
                 sim.exec_op(op)
-                n += 1
                 kind, out = sim.record[-1]
+                if op["op"] != "step":
+                    continue
+                n += 1
                 done = out["done"]
         res["ops"] = n
         res["steps"] = n
